@@ -23,6 +23,16 @@ NA = {
 PENDING_REASON = "check under construction in this session (engine designed in DESIGN.md section 4, not yet registered)"
 
 CHECKS = {
+ "C11": dict(engine="parsesim", path="simfcp/parsesim11.py", category="fault_enumeration", design_ref="4.3",
+   text="for seeded small schema trees on a private disk, EVERY byte-offset truncation of EVERY file is parsed (exhaustive per tree), plus ~40 token-level garbles and targeted out-of-domain literals per file, missing and emptied modules, through get_fcp and get_fcp_from_string with fresh / run-long shared / default-argument Loggers; each parse must return (20 s watchdog), raise nothing, answer is_ok/is_err, and every Err must render with citations [file:n] that exist and echo line n; sampled over trees and garbles",
+   note="trusts the citation parser (regex over the rendered diagnostic) and the watchdog as termination oracle; says nothing about which verdict is returned",
+   technique="deterministic simulation of storage faults on schema files (torn writes enumerated at every byte, garbled / missing / empty files) with long-lived logger state",
+   kind="deterministic simulation: schema file tree on a private disk with torn/garbled/missing files, real parser + diagnostic renderer"),
+ "C20": dict(engine="parsesim", path="simfcp/parsesim20.py", category="exploration", design_ref="4.7",
+   text="seeded declaration lists split into seeded trees of closed modules (depth <= 3, dotted paths) on a private disk; the split tree must parse to the same structs/enums/bindings/services/devices as the single-file rendering, and for every module M each of missing / illegal token / torn tail / unresolved type must come back as an Err naming M (and the type); sampling, not proof",
+   note="modules are closed and imported once (tree); categories compared as name-keyed maps; 'names the module' = base file name occurs in the rendered diagnostic or message chain",
+   technique="deterministic simulation of a multi-file schema tree with per-module storage faults (missing / corrupted module at any depth), single-file reference",
+   kind="deterministic simulation: module tree on a private disk, per-module fault injection, single-file schema as reference"),
  "C04": dict(engine="layoutsim", category="exploration", design_ref="4.1",
    text="seeded search over fixed-size schemas x histories of generate() calls on long-lived encoders (re-layouts, raising calls, encoder replacement, unrolling on/off); every call is judged against a reference layout computed from the schema description (tiling, field-id order, wire widths, unique names), against a brand-new encoder (history independence), against snapshots of all earlier results (no retroactive change) and for option isolation; sampling, not proof",
    note="trusts the 40-line reference layout (written from the property text) and the schema renderer; shapes the encoder documents as unsupported are counted, not judged",
@@ -64,7 +74,7 @@ def main():
         if e:
             e[0]["serves_properties"].append(pid)
         else:
-            engines.append({"name": c["engine"], "path": c.get("path", f"simfcp/{c['engine']}.py"),
+            engines.append({"name": c["engine"], "path": c.get("path", f"simfcp/{c['engine']}.py") if c["engine"] != "parsesim" else "simfcp/parsekit.py (+ parsesim11.py, parsesim20.py)",
                             "serves_properties": [pid], "kind_free_text": c["kind"]})
     na = dict(NA)
     for p in pending:
